@@ -6,6 +6,7 @@ use std::panic;
 
 mod util;
 mod lexmode;
+mod pipemode;
 
 fn main() {
     let args: Vec<String> = std::env::args().collect();
@@ -53,6 +54,8 @@ fn main() {
 fn dispatch(mode: &str, payload: &str) -> String {
     match mode {
         "lex" => lexmode::lex(payload),
+        "pipe" => pipemode::pipe(payload),
+        "multi" => pipemode::multi(payload),
         _ => format!("BADMODE {mode}"),
     }
 }
